@@ -32,6 +32,8 @@ type Control struct {
 	Why        string   `json:"why"`
 	Edits      []Edit   `json:"edits"`
 	Suite      string   `json:"suite,omitempty"` // "survives" / "killed by <test>" when calibrated
+	Patch      string   `json:"patch,omitempty"` // unified diff (relative to /verif) applied instead of Edits
+	Benign     bool     `json:"benign,omitempty"` // negative control: behaviour-preserving, NO new violation may appear
 }
 
 type WitnessResult struct {
@@ -189,6 +191,15 @@ func RunWitnesses(repo, verifDir, property string) ([]WitnessResult, int) {
 					return
 				}
 			}
+			if c.Patch != "" {
+				cmd := exec.Command("patch", "-p1", "--binary", "-s", "-N", "-i", filepath.Join(verifDir, c.Patch))
+				cmd.Dir = dir
+				if out, err := cmd.CombinedOutput(); err != nil {
+					res.Status, res.Detail = "skipped", "patch no longer applies: "+strings.TrimSpace(string(out))
+					results[i] = res
+					return
+				}
+			}
 			keys, out, err := violatedKeys(self, dir, verifDir, property)
 			if err != nil {
 				res.Status, res.Detail = "MISSED", "analyser failed on the variant: "+err.Error()
@@ -205,6 +216,23 @@ func RunWitnesses(repo, verifDir, property string) ([]WitnessResult, int) {
 				if !keys[k] || base[k] {
 					ok = false
 				}
+			}
+			if c.Benign {
+				var fresh []string
+				for k := range keys {
+					if !base[k] {
+						fresh = append(fresh, k)
+					}
+				}
+				sort.Strings(fresh)
+				if len(fresh) == 0 {
+					res.Status = "silent"
+				} else {
+					res.Status = "FALSE-ALARM"
+					res.Detail = "behaviour-preserving variant reported as: " + strings.Join(fresh, ", ")
+				}
+				results[i] = res
+				return
 			}
 			for k := range keys {
 				if base[k] {
@@ -235,16 +263,19 @@ func RunWitnesses(repo, verifDir, property string) ([]WitnessResult, int) {
 	nd, ns := 0, 0
 	for _, r := range results {
 		switch r.Status {
-		case "detected":
+		case "detected", "silent":
 			nd++
 		case "skipped":
 			ns++
 			fmt.Printf("WITNESS skipped %s: %s\n", r.ID, r.Detail)
+		case "FALSE-ALARM":
+			exit = 2
+			fmt.Printf("NEGATIVE CONTROL %s raised a false alarm: %s — the checker is broken\n", r.ID, r.Detail)
 		default:
 			exit = 2
 			fmt.Printf("WITNESS MISSED %s (expects %v): %s — the checker is broken, its green result cannot be trusted\n", r.ID, r.Expect, r.Detail)
 		}
 	}
-	fmt.Printf("%s witnesses: %d controls, %d detected, %d skipped, %d missed\n", property, len(results), nd, ns, len(results)-nd-ns)
+	fmt.Printf("%s witnesses: %d controls, %d as expected (detected / silent), %d skipped, %d wrong\n", property, len(results), nd, ns, len(results)-nd-ns)
 	return results, exit
 }
